@@ -4,6 +4,7 @@
 //
 //   explore_set --explore --K 1 [--reloc 0|1|2] [--deadline s] [--crumb file] [--seqlen n] [--few-ranges] [--no-temps]
 //   explore_set --replay "<op> <op> ..."
+#include <sanitizer/asan_interface.h>
 #include <fcntl.h>
 #include <sys/mman.h>
 #include <unistd.h>
@@ -41,6 +42,7 @@ static void pool_init(World &w) {
   for (int i = 0; i < w.K; ++i) {
     Slot &s = w.slot[i];
     s.cur = 0;
+    ASAN_UNPOISON_MEMORY_REGION(s.buf, sizeof s.buf);
     ::new (s.raw()) S(make_cmp());
     s.alive = true;
     w.m[i].emplace(make_mcmp());
@@ -58,8 +60,10 @@ static void relocate_all(World &w) {
   if constexpr (amc::is_trivially_relocatable<S>::value) {
     for (int i = 0; i < w.K; ++i) {
       Slot &s = w.slot[i];
+      ASAN_UNPOISON_MEMORY_REGION(s.other(), sizeof(S));
       std::memcpy(s.other(), s.raw(), sizeof(S));
       std::memset(s.raw(), 0xEE, sizeof(S));
+      ASAN_POISON_MEMORY_REGION(s.raw(), sizeof(S));  // the source is abandoned: any later access to it is a defect
       s.cur ^= 1;
     }
   }
@@ -312,6 +316,9 @@ static RunResult run_once(const std::vector<Op> &hist, const Op *op, int K, std:
   r.key_before = key_of(w);
   if (enabled) enumerate(w, o, *enabled);
   if (op) {
+    // C14: run every const observer (all lookups) BEFORE the relocation as well, so that anything a const member might
+    // cache (a pointer to the last hit, an iterator...) is set when the bytes move
+    if (g_reloc >= 1) observe<>(w);
     if (g_reloc >= 1) relocate_all(w);
     g_default_cmp_calls = 0;
     g_final = true;
